@@ -52,6 +52,39 @@ def handle (toks : List String) : String :=
     | some ma, some mi, some sender, some rs, some eph, some src, some bs, some pt =>
       showSealRand (Encrypt.sealRand RealPrims bs ⟨ma, mi⟩ sender rs eph src pt) src.length
     | _, _, _, _, _, _, _, _ => bad
+  | ["enc.sendercalls", ma, mi, sender, recips, eph, src] =>
+    match ma.toInt?, mi.toInt?, mkSender sender, mkRecips recips, mkEph eph, mkSource src with
+    | some ma, some mi, some sender, some rs, some eph, some src =>
+      match Encrypt.sealRandCalls RealPrims ⟨ma, mi⟩ sender rs eph src with
+      | .ok cs => s!"ok {showCalls cs}"
+      | .error e => s!"err {showErr e}"
+    | _, _, _, _, _, _ => bad
+  | ["sig.signcalls", ma, mi, signer, src, bs, msg] =>
+    match ma.toInt?, mi.toInt?, ofHex signer, mkSource src, bs.toNat?, ofHex msg with
+    | some ma, some mi, some signer, some src, some bs, some msg =>
+      if !knownVersion ⟨ma, mi⟩ then "err bad-version"
+      else match Rand.readFull Sign.sigNonceLen src with
+      | none => "err io-error"
+      | some (n, _) =>
+        let hb := Msgpack.encode (Sign.header ⟨ma, mi⟩ (RealPrims.sigPub signer) mtAttached n).toVal
+        s!"ok {showCalls (Sign.signCalls RealPrims ⟨ma, mi⟩ signer (RealPrims.hash hb) (Encrypt.chunkPlan ⟨ma, mi⟩ bs msg) 0)}"
+    | _, _, _, _, _, _ => bad
+  | ["sig.detcalls", ma, mi, signer, src, msg] =>
+    match ma.toInt?, mi.toInt?, ofHex signer, mkSource src, ofHex msg with
+    | some ma, some mi, some signer, some src, some msg =>
+      if !knownVersion ⟨ma, mi⟩ then "err bad-version"
+      else match Rand.readFull Sign.sigNonceLen src with
+      | none => "err io-error"
+      | some (n, _) =>
+        let hb := Msgpack.encode (Sign.header ⟨ma, mi⟩ (RealPrims.sigPub signer) mtDetached n).toVal
+        s!"ok {showCalls [KeyCall.sign signer (detachedSignatureInput RealPrims (RealPrims.hash hb) msg)]}"
+    | _, _, _, _, _ => bad
+  | ["sc.signcalls", sender, recips, eph, pk, bs, pt] =>
+    match mkSender sender, mkSRecips recips, ofHex eph, ofHex pk, bs.toNat?, ofHex pt with
+    | some sender, some rs, some eph, some pk, some bs, some pt =>
+      let hb := Msgpack.encode (Signcrypt.header RealPrims sender eph pk rs).toVal
+      s!"ok {showCalls (Signcrypt.signCalls RealPrims sender (RealPrims.hash hb) (Encrypt.chunkPlan v2 bs pt) 0)}"
+    | _, _, _, _, _, _ => bad
   | ["enc.sealwith", ma, mi, sender, recips, eph, pk, bs, pt] =>
     match ma.toInt?, mi.toInt?, mkSender sender, mkRecips recips, ofHex eph, ofHex pk, bs.toNat?, ofHex pt with
     | some ma, some mi, some sender, some rs, some eph, some pk, some bs, some pt =>
